@@ -7,7 +7,7 @@
    instantiates it. *)
 From SV Require Import Base.Bytes Base.BytesP Model.IOSched Spec.ChunkDecode Model.Chunked
                        Proofs.IOSchedP Proofs.ChunkedP.
-From SV Require Import Generated.SourceParams Tie.ChunkTie.
+From SV Require Import Generated.SourceParams Tie.ChunkTie Tie.ResponseTie.
 
 (* C07.1  The size line.  For EVERY data length 1 <= n <= 65535 (all lengths a read of at most
    65528 bytes can have, and then some; finite domain, checked exhaustively by computation inside
@@ -143,6 +143,12 @@ Theorem c07_hex_digit_is_the_source_table :
   forallb (fun e => hex_digit (fst e) =? snd e) src_hex_digit_table = true.
 Proof. exact hex_digit_table_tie. Qed.
 
+(* C07.src2  write_http_response (src/response.rs) as read ON THIS RUN sends a body of unknown length through
+   copy_chunked_async and nothing else (the shape of the part after the head; a source error is mapped to
+   ErrorReadingResponseBody, a writer error to Disconnected, and the head announces transfer-encoding: chunked) *)
+Theorem c07_serialiser_uses_the_encoder : src_problems_resp_head = 0%nat /\ src_resp_body_shape_ok = true.
+Proof. exact resp_head_translated. Qed.
+
 Print Assumptions c07_size_line_correct.
 Print Assumptions c07_piece_max_ok.
 Print Assumptions c07_decode_encode.
@@ -159,3 +165,4 @@ Print Assumptions c07_source_layout.
 Print Assumptions c07_hex4_is_the_source_stores.
 Print Assumptions c07_translation_complete.
 Print Assumptions c07_hex_digit_is_the_source_table.
+Print Assumptions c07_serialiser_uses_the_encoder.
